@@ -27,6 +27,7 @@ TV_SHAPES = [
     dict(method=True, pos=[(10, False), (11, True)], kwonly=[(31, False), (32, True)]),
     dict(method=False, pos=[(None, True), (11, False)], kwonly=[(31, True)]),
     dict(method=True, pos=[(10, True)], kwonly=[(32, False)]),
+    dict(method=False, pos=[(10, False)], kwonly=[(31, False), (32, False, True)]),     # 32 required, 31 optional
 ]
 
 
@@ -42,7 +43,7 @@ def tv_case(rng, shapes):
     cs = rng.choice([RL.CALL_NEXT, RL.CALL_NEXT, None])
     if rs is None and cs is None:
         rs = RL.RECURSE
-    g = RL.Gen(rng, rs=rs, cs=cs, kwnames=[k for k, _ in sh["kwonly"]] or [31], posnames=[n for n, _ in sh["pos"] if n is not None], p_odd=0.03)
+    g = RL.Gen(rng, rs=rs, cs=cs, kwnames=[kwp[0] for kwp in sh["kwonly"]] or [31], posnames=[n for n, _ in sh["pos"] if n is not None], p_odd=0.03)
     body = g.body()
     return {"shape": si, "rs": rs, "cs": cs, "body": body, "nid": rng.randrange(5), "code": rng.randrange(5)}, g.ctx_hist
 
@@ -336,6 +337,13 @@ TEMPLATES = {
         "def fself({S}v10: Trig, v11: object):\n    b = (eff(1, 1),\n         2,\n         recurse('x',\n                 'y'))\n    return b"),
     "keyword_order": lambda r: dict(m_src=
         "def fself({S}v10: Trig, v11: object):\n    return (recurse([1], 1, v32=eff(1, [2]), v31=eff(2, 3)), recurse([1], 1, v31=eff(3, 3), v32=eff(4, [2])))"),
+    # a keyword-only parameter every method requires next to an optional one: whatever the generated code does with the
+    # two kinds, the argument expressions run in the order written
+    "required_and_optional_keyword": lambda r: dict(leaves=REQ_LEAVES, stub_sig="v10: Trig, v11: object, *, v31: object = 0, v33: object",
+        call_kw={"v33": [0, 1]}, m_src=
+        "def fself({S}v10: Trig, v11: object, *, v31: object = 0, v33: object):\n    return (recurse(1, 1, v31=eff(1, 2), v33=eff(2, 3)), "
+        "recurse([1], 1, v32=eff(3, [2]), v31=eff(4, 3), v33=eff(5, 1)), recurse(1, 1, v33=eff(6, 1), v31=eff(7, 2)), "
+        "call_next(1, [1], v33=eff(8, 9)), " + r.choice(["recurse", "call_next"]) + "(1, 1, v31=(w := eff(9, 4)), v33=w))"),
     "global_nonlocal": lambda r: dict(m_src=
         "def fself({S}v10: Trig, v11: object):\n    n = 0\n    def bump():\n        nonlocal n\n        n += 1\n        return " + _site(r, "n", "v11") + "\n    return (bump(), bump(), n)"),
     "with_and_assert": lambda r: dict(prelude="import contextlib", m_src=
@@ -349,6 +357,14 @@ TEMPLATES = {
 }
 
 
+REQ_LEAVES = [
+    dict(pos=[1, 1], kw={31: (1, False), 33: (1, True)}),
+    dict(pos=[6, 1], kw={31: (1, False), 32: (6, False), 33: (1, True)}),
+    dict(pos=[1, 6], kw={33: (1, True)}),
+    dict(pos=[6, 6], kw={33: (1, True)}),
+]
+
+
 def template_scenario(name, rng, method=None):
     t = TEMPLATES[name](rng)
     method = t.get("method", rng.random() < 0.4 if method is None else method)
@@ -360,8 +376,12 @@ def template_scenario(name, rng, method=None):
         src = dec + src
     src = "\n".join(ind + l for l in src.split("\n"))
     arg2 = rng.choice([[0, 5], [0, 5], [6, 0, [[0, 1]]], [0, 1]])
-    return dict(method=method, leaves=RT.DEFAULT_LEAVES, m_src=src, prelude=t.get("prelude", ""),
-                globals={str(k): v for k, v in GLOB.items()}, arg2=arg2, template=name)
+    sc = dict(method=method, leaves=t.get("leaves", RT.DEFAULT_LEAVES), m_src=src, prelude=t.get("prelude", ""),
+              globals={str(k): v for k, v in GLOB.items()}, arg2=arg2, template=name)
+    for k in ("stub_sig", "call_kw"):
+        if k in t:
+            sc[k] = t[k]
+    return sc
 
 
 def judge_template(reg, asw):
@@ -425,7 +445,7 @@ def run(ctx):
     finally:
         shutil.rmtree(work, ignore_errors=True)
     return {"evaluations": stats["evaluations"], "distinct_nontrivial": len(stats["distinct"]),
-            "rule": "translation validation: random straight-line method bodies over the modelled grammar (every expression context; awkward placements -- *, **, positional-by-keyword, repeated keyword, bare symbols, symbol-named binders -- with small probability), 4 parameter shapes (function / method, type[...] positions, positional-only, keyword-only), distinct non-trivial = distinct bodies containing a recurse / call_next call; behaviour: random bodies of the executable sub-grammar registered in a real function / class next to 10 leaf methods, distinct by (body, argument, method?); templates: 28 hand-written contexts outside the grammar with randomised call sites",
+            "rule": "translation validation: random straight-line method bodies over the modelled grammar (every expression context; awkward placements -- *, **, positional-by-keyword, repeated keyword, bare symbols, symbol-named binders -- with small probability), 5 parameter shapes (function / method, type[...] positions, positional-only, keyword-only), distinct non-trivial = distinct bodies containing a recurse / call_next call; behaviour: random bodies of the executable sub-grammar registered in a real function / class next to 10 leaf methods, distinct by (body, argument, method?); templates: 29 hand-written contexts outside the grammar with randomised call sites",
             "samples": stats["samples"], "programs": stats["tv_programs"], "disagreements_checked": stats["tv_programs"],
             "tv_rewritten_ast_equal_to_model": stats["tv_ast_equal"], "tv_usage_errors_agreeing": stats["tv_usage_error"],
             "tv_invalid_originals_agreeing": stats["tv_invalid_original"], "tv_valid_and_in_domain": stats["tv_in_domain"], "tv_kf11_hits": stats["tv_kf11"],
